@@ -841,7 +841,7 @@ Proof.
 Qed.
 
 (* whole programs: _IRnodeLowerer.compile_to_assembly = body, STOP, shared revert block *)
-Definition lst0 : lst := {| cnt := 0; revl := None; labels := []; lh := [] |}.
+Definition lst0 : lst := {| cnt := 0; revl := None; labels := []; lh := []; dsegs := [] |}.
 Definition postamble (s : lst) : list item :=
   (Op "STOP" :: match revl s with Some l => [Lbl l] ++ push 0 ++ [Op "DUP1"; Op "REVERT"] | None => [] end)%list.
 Theorem lower_top_flow e a s' : lower 64 [] None 0 e lst0 = Ok (a, s') -> wv false e ->
@@ -866,7 +866,7 @@ Theorem lower_top_balanced e code : lower_top e = Ok code -> wv false e ->
   exists E, flow E code (Live 0 None) = Some Dead.
 Proof.
   unfold lower_top. intros H WV.
-  destruct (lower 64 [] None 0 e {| cnt := 0; revl := None; labels := []; lh := [] |}) as [[a s']|] eqn:L; cbn [bind] in H; [|discriminate].
+  destruct (lower 64 [] None 0 e {| cnt := 0; revl := None; labels := []; lh := []; dsegs := [] |}) as [[a s']|] eqn:L; cbn [bind] in H; [|discriminate].
   inversion H; subst. exists (lh s').
   assert (R0: rinv lst0) by (split; [intros l Hl; discriminate Hl | split; [intros l v [] | intros l v v' []]]).
   destruct (lower_spec 64 [] None 0 e lst0 a s' false L WV R0) as (_ & R & _).
